@@ -1,7 +1,9 @@
 package rules
 
 import (
+	"fmt"
 	"go/token"
+	"go/types"
 
 	"golang.org/x/tools/go/ssa"
 
@@ -118,4 +120,142 @@ func (c *Ctx) deepestReaching(pkgRel string, preds ...func(*core.Call) bool) []*
 		}
 	}
 	return out
+}
+
+
+// guardedByNilResultDeep is guardedByNilResult for a guard call and a target that may sit in different helpers of root:
+// on every path of root (its package's helpers inlined) that executes target, the latest execution of guard before it
+// had its error result tested and found nil before target runs.
+func (c *Ctx) guardedByNilResultDeep(root *ssa.Function, guard *core.Call, target ssa.Instruction) (ok bool, detail string, npaths int) {
+	paths, err := c.pathsInlinedPkg(root, core.PathOpts{}, nil)
+	if err != nil {
+		return false, err.Error(), 0
+	}
+	n := 0
+	for _, p := range paths {
+		flat := p.Instrs()
+		ds := decisions(p)
+		for j, pi := range flat {
+			if pi.In != target {
+				continue
+			}
+			gi := -1
+			for i := j - 1; i >= 0; i-- {
+				if flat[i].In == guard.Instr {
+					gi = i
+					break
+				}
+			}
+			if gi < 0 {
+				return false, "the target is reached without the call before it: " + fmtPath(p, c.P), n
+			}
+			n++
+			tested, isNil := false, false
+			for _, d := range ds {
+				if d.Seq <= gi || d.Seq >= j {
+					continue
+				}
+				bo, okb := d.Cond.(*ssa.BinOp)
+				if !okb || (bo.Op != token.EQL && bo.Op != token.NEQ) {
+					continue
+				}
+				for _, pair := range [][2]ssa.Value{{bo.X, bo.Y}, {bo.Y, bo.X}} {
+					k, isK := p.Resolve(pair[1]).(*ssa.Const)
+					if isK && k.Value == nil && isErrOperandOf(p.Resolve(pair[0]), guard) {
+						tested = true
+						isNil = d.Val == (bo.Op == token.EQL)
+					}
+				}
+			}
+			if !tested {
+				return false, "reached without testing the error: " + fmtPath(p, c.P), n
+			}
+			if !isNil {
+				return false, "reached on a path where the error is non-nil: " + fmtPath(p, c.P), n
+			}
+		}
+	}
+	if n == 0 {
+		return false, "no path from the call to the target found", 0
+	}
+	return true, fmt.Sprintf("%d path(s) from the call to the target, all through the nil-error branch", n), n
+}
+
+// copyReaches: v may be a copy of target — reachable through loads, stores into the loaded local or struct field
+// (field-based: any store in the module to that field of that struct type), helper parameters, captured variables and
+// conversions only; no arithmetic and no call results on the way.
+func (c *Ctx) copyReaches(v, target ssa.Value) bool {
+	tset := map[ssa.Value]bool{}
+	for t, i := target, 0; t != nil && i < 12; i++ {
+		t = conversionsOnly(t)
+		tset[t] = true
+		st := core.Strip(t)
+		tset[st] = true
+		p, ok := st.(*ssa.Parameter)
+		if !ok {
+			break
+		}
+		args := callerArgs(p)
+		if len(args) != 1 {
+			break
+		}
+		t = args[0]
+	}
+	seen := map[ssa.Value]bool{}
+	var walk func(v ssa.Value, d int) bool
+	walk = func(v ssa.Value, d int) bool {
+		if v == nil || seen[v] || d > 40 {
+			return false
+		}
+		seen[v] = true
+		if tset[v] {
+			return true
+		}
+		switch x := v.(type) {
+		case *ssa.Convert:
+			return walk(x.X, d+1)
+		case *ssa.ChangeType:
+			return walk(x.X, d+1)
+		case *ssa.Parameter:
+			for _, a := range callerArgs(x) {
+				if walk(a, d+1) {
+					return true
+				}
+			}
+		case *ssa.FreeVar:
+			if b := core.FreeVarBinding(x); b != nil {
+				return walk(b, d+1)
+			}
+		case *ssa.Alloc:
+			for _, st := range allStoresTo(x) {
+				if walk(st.Val, d+1) {
+					return true
+				}
+			}
+		case *ssa.UnOp:
+			if x.Op != token.MUL {
+				return false
+			}
+			if fa, ok := x.X.(*ssa.FieldAddr); ok {
+				for _, f := range c.P.ModFuncs() {
+					for _, b := range f.Blocks {
+						for _, in := range b.Instrs {
+							st, isSt := in.(*ssa.Store)
+							if !isSt {
+								continue
+							}
+							fa2, isFA := st.Addr.(*ssa.FieldAddr)
+							if isFA && fa2.Field == fa.Field && types.Identical(derefT(fa2.X.Type()), derefT(fa.X.Type())) && walk(st.Val, d+1) {
+								return true
+							}
+						}
+					}
+				}
+				return false
+			}
+			return walk(x.X, d+1)
+		}
+		return false
+	}
+	return walk(v, 0)
 }
